@@ -70,6 +70,8 @@ def location(form, nxt_origin, k, cur_origin):
         return "http://[::1/h1"
     if form == "query":
         return f"{base}/h{k}?next=1#frag"
+    if form == "noloc":
+        return ""
     raise KeyError(form)
 
 
@@ -136,6 +138,8 @@ def run_chain(case):
                         st_code, form = hops[k]
                         loc = location(form, origins[k + 1] if k + 1 < len(origins) else origins[k], k + 1, origins[k])
                         resp = f"HTTP/1.1 {st_code} Redirect\r\nLocation: {loc}\r\nContent-Length: 4\r\n\r\nmove".encode()
+                        if form == "noloc":
+                            resp = f"HTTP/1.1 {st_code} Redirect\r\nContent-Length: 4\r\n\r\nmove".encode()
                     else:
                         resp = b"HTTP/1.1 200 OK\r\nContent-Length: 5\r\n\r\nfinal"
                     if m.method.upper() == b"HEAD":
@@ -195,6 +199,10 @@ def judge(part, case, records, result, hung, leaked):
         if k >= len(hops):
             break
         code, form = hops[k]
+        if form == "noloc":
+            # a 3xx without Location cannot be followed: it is the final response of the chain
+            stop = "no-location"
+            break
         if maxr and k + 1 >= maxr:
             stop = "too-many"
             break
@@ -263,6 +271,17 @@ def judge(part, case, records, result, hung, leaked):
         V("non-http-target-not-refused", f"redirect to a non-HTTP target ended with {err or result.get('status')}")
     if stop == "too-many" and err != "TooManyRedirects":
         V("max_redirects-not-enforced", f"ended with {err or result.get('status')}")
+    if stop == "no-location":
+        k = len(expected) - 1
+        if err is not None:
+            V(f"no-location:ends-with-{err}", f"a {hops[k][0]} without Location is a final response, the request ended with {err}")
+        else:
+            want_hist = [h[0] for h in hops[:k]]
+            got_hist = [s for (s, _u) in result.get("history", [])]
+            if got_hist != want_hist:
+                V("no-location:history-differs", f"history statuses {got_hist} for the final {hops[k][0]} without Location; the hops before it were {want_hist}")
+            if result.get("status") != hops[k][0]:
+                V("no-location:final-status", f"final status {result.get('status')}, expected {hops[k][0]}")
     if stop is None and err is None:
         want_hist = [h[0] for h in hops[:len(origins) - 1]]
         got_hist = [s for (s, _u) in result.get("history", [])]
@@ -310,6 +329,13 @@ def cases(quick):
         for s in (302, 307):
             out.append({"origins": [o0, o1, o2], "hops": [(s, "creds"), (s, "abs")], "method": "GET", "body": "none", "auth_header": False})
             out.append({"origins": [o0, o1, o2], "hops": [(s, "abs"), (s, "abs")], "method": "GET", "body": "none", "auth_header": False, "url_creds": True})
+    # a 3xx that carries no Location: first hop, behind another redirect, and at the max_redirects boundary
+    for st in (301, 302, 303, 307, 308):
+        for mth, body in (("GET", "none"), ("POST", "bytes")):
+            out.append({"origins": ["A", "A"], "hops": [(st, "noloc")], "method": mth, "body": body})
+            out.append({"origins": ["A", "B", "B"], "hops": [(302, "abs"), (st, "noloc")], "method": mth, "body": body})
+            out.append({"origins": ["A", "A"], "hops": [(st, "noloc")], "method": mth, "body": body, "max_redirects": 1})
+            out.append({"origins": ["A", "B", "B"], "hops": [(302, "abs"), (st, "noloc")], "method": mth, "body": body, "max_redirects": 2})
     # max_redirects
     for mr in (1, 2, 3):
         for o in (["A", "A", "A", "A"], ["A", "B", "A", "B"]):
